@@ -1,5 +1,10 @@
-(* CsvStreamProofs.v — the stream reader (CCsvStreamReader over CEncodedStreamReader<char, K>, UTF-8 source)
-   on RFC 4180 renderings, for every chunk size K >= 1. *)
+(* CsvStreamProofs.v — the stream reader (CCsvStreamReader) on RFC 4180 renderings.
+   Section SRC: over ANY chunk source (state Src, rd = ReadChunk, iend = IsEnd) that delivers a text - stream_rest e
+   = what is still to come, esr_inv e = the state is sound - under two laws: rd answers Some non-empty chunk that is a
+   prefix of what is to come, or None when nothing is to come and then iend holds (rd_spec); iend implies that
+   nothing is to come (iend_spec).  Result csv_load_src_render: the answer depends on the delivered text only.
+   Instances: CEncodedStreamReader<char, K> on a UTF-8 source, every K >= 1 (esr_*, csv_load_stream_*: here), an
+   arbitrary list of non-empty chunks (CsvChunks.v), hence any of the five encodings (CsvEncodings.v with C13). *)
 From BS Require Import Base CsvSpec CsvSpecProofs CsvModel CsvWriterProofs CsvReaderProofs.
 From Coq Require Import ZifyBool ZifyN ZifyNat.
 Ltac Zify.zify_post_hook ::= Z.div_mod_to_equations.
